@@ -153,6 +153,10 @@ class InsecureHomeKitProtocol(asyncio.Protocol):
                 # original exception or skip closing the transport.
                 pass
             self.transport.close()
+            # A transport with unsent data reports connection_lost only once
+            # its buffer has drained: fail the other requests that are out
+            # on this connection now instead of leaving them to their timers.
+            self._cancel_pending_requests()
             if isinstance(ex, asyncio.TimeoutError):
                 timeout_expired = True
                 raise AccessoryDisconnectedError("Timeout while waiting for response") from ex
@@ -566,6 +570,10 @@ class HomeKitConnection:
         """
         if self.transport:
             self.transport.close()
+        if self.protocol:
+            # connection_lost may come late (unsent data in the write buffer):
+            # whoever still waits for a response on this connection fails now
+            self.protocol.close()
         self.transport = None
         self.protocol = None
 
